@@ -103,6 +103,10 @@ def make_source(name):
     pdf = base()
     if name == "from_pandas":
         return dx.from_pandas(pdf, npartitions=5)
+    if name == "from_pandas_dense7":
+        d = base(7)
+        d.index = pd.Index(np.arange(7, dtype="int64"))
+        return dx.from_pandas(d, npartitions=3)
     if name == "from_pandas_one":
         return dx.from_pandas(pdf, npartitions=1)
     if name == "from_pandas_dupidx":
@@ -255,6 +259,9 @@ def run_case(case):
     unordered, sorted_sem = CHAINS[chain][1], CHAINS[chain][2]
     ref = reference(source, chain)
     if ref[0] == "err":
+        if ref[1] == "RuntimeError" and "reference has" in ref[2]:
+            # the collection reports a partition count its own plan does not have: positions are meaningless
+            return ("npartitions", ref[2])
         return None  # the query itself is not computable: nothing to commute with
     full = ref[1]
     like = full[0]
@@ -455,6 +462,7 @@ def _signature(case, what):
 _CORE_CHAINS = ["id", "add1", "filter", "col_a", "bcast_assign", "bcast_series", "mappart_bcast", "assign_series", "mul_axis0"]
 _HEAVY_CHAINS = [c for c in CHAINS if c not in _CORE_CHAINS]
 _HEAVY_SOURCES = ["from_pandas", "from_map", "from_array", "read_parquet_div"]
+_EXTRA_SOURCES = ["from_pandas_dense7"]  # only used by MUST_RUN / replay
 
 
 def all_cases(ctx, broken=()):
@@ -482,7 +490,8 @@ MUST_RUN = [
     {"source": "from_array", "chain": "id", "sel": {"kind": "partitions", "P": [1, 2]}},                  # D4
     {"source": "from_pandas", "chain": "shuffle_tasks_mb2", "sel": {"kind": "partitions", "P": [2, 3, 4]}},  # D6
     {"source": "from_pandas", "chain": "id", "sel": {"kind": "to_delayed_sel", "P": [2, 0]}},             # D12
-    {"source": "from_pandas", "chain": "repart7", "sel": {"kind": "to_delayed", "optimize": True}},       # D14
+    {"source": "from_pandas_dense7", "chain": "repart7", "sel": {"kind": "to_delayed", "optimize": True}},  # D14
+    {"source": "from_pandas_dense7", "chain": "repart7", "sel": {"kind": "partitions", "P": [5]}},          # D14
     {"source": "from_pandas", "chain": "shuffle_tasks", "sel": {"kind": "tail", "n": 2}},                 # D22
 ]
 
